@@ -63,6 +63,7 @@ type linLine struct {
 	Scenario string   `json:"scenario,omitempty"`
 	Config   string   `json:"config,omitempty"`
 	Sched    []string `json:"sched,omitempty"`
+	Mode     string   `json:"mode,omitempty"` // "acct": judged by LinKey's account reading (C17)
 }
 
 type pkConfig struct {
